@@ -270,6 +270,57 @@ def run_queries(butler, universe, conv, objs, groups):
     return res
 
 
+def run_opqueries(butler, universe, conv, objs, opqs, tag):
+    """queries with a join operand: {"G": names, "ons": names of a closed group, "kind": mat|upload|dataset, "frac": share of
+    the data IDs of the operand's group that is uploaded / given a dataset} -> rows of .data_ids(G) after joining the
+    operand, and the operand's rows as given (`given`, values in `ons` order)"""
+    from lsst.daf.butler import DataCoordinate, DatasetType
+    res = []
+    run = None
+    for i, oq in enumerate(opqs):
+        G, ons, kind = oq["G"], oq["ons"], oq["kind"]
+        o = {"ds": list(universe.conform(set(G) | set(ons)).names)}
+        try:
+            coords = None
+            if kind in ("upload", "dataset"):
+                if "rows" in oq:
+                    given = [list(r) for r in oq["rows"]]
+                else:
+                    with butler.query() as q0:
+                        src = sorted({tuple(r) for r in rows_of(conv, ons, list(q0.data_ids(ons)))})
+                    keep = -(-len(src) * int(oq.get("frac", 1.0) * 10) // 10)
+                    start = oq.get("skip", 0) % max(1, len(src))
+                    given = [list(r) for r in (src[start:] + src[:start])[:keep]]
+                o["given"] = given
+                coords = [DataCoordinate.standardize({d: conv.to_impl(d, v) for d, v in zip(ons, row)}, universe=universe)
+                          for row in given]
+            if kind == "dataset":
+                if run is None:
+                    run = f"oprun_{tag}"
+                    butler.registry.registerRun(run)
+                name = f"opdt_{tag}_{i}"
+                dt = DatasetType(name, universe.conform(ons), "StructuredDataDict")
+                butler.registry.registerDatasetType(dt)
+                if coords:
+                    butler.registry.insertDatasets(dt, coords, run=run)
+            with butler.query() as q:
+                if kind == "mat":
+                    q2 = q.join_dimensions(ons).materialize()
+                elif kind == "upload":
+                    q2 = q.join_data_coordinates(coords) if coords else None
+                else:
+                    q2 = q.join_dataset_search(name, collections=[run])
+                if q2 is None:
+                    o["skipped"] = "empty upload"
+                else:
+                    ids = list(q2.data_ids(G))
+                    o["rows"] = rows_of(conv, G, ids)
+        except Exception as exc:  # noqa: BLE001
+            o["err"] = classify(exc)
+        res.append(o)
+    return res
+
+
 def temporal_joins(butler, universe):
     """explicit `a.timespan OVERLAPS b.timespan` between every pair of temporal elements: accepted ('rows') or error class"""
     out = []
@@ -335,6 +386,8 @@ def run_population(payload):
             ho["queries"] = run_queries(butler, universe, conv, objs, h.get("groups", payload["groups"]))
             if payload.get("records_query", True):
                 ho["records"] = records_via_query(butler, universe, conv, objs)
+            if h.get("opqueries"):
+                ho["opqueries"] = run_opqueries(butler, universe, conv, objs, h["opqueries"], h["name"])
             if payload.get("temporal_joins") and "tjoins" not in out:
                 out["tjoins"] = temporal_joins(butler, universe)
         except Exception as exc:  # noqa: BLE001
@@ -383,6 +436,19 @@ def _still_fails(payload, ops):
             if api + "_err" in q:
                 return False
             return norm(q[api]) != norm(expected_rows(meta, payload["group"], P, geom["ov_exact"]))
+        if kind == "oprows":
+            oq = payload["opquery"]
+            obs = run_opqueries(butler, universe, conv, objs, [oq], "shr")[0]
+            if "err" in obs:
+                return True
+            if "rows" not in obs:
+                return False
+            G, ons, D = payload["group"], payload["operand_group"], payload["closure_group"]
+            full = norm(expected_rows(meta, D, P, geom["ov_exact"]))
+            R = {tuple(r) for r in (norm(expected_rows(meta, ons, P, geom["ov_exact"])) if oq["kind"] == "mat" else obs.get("given", []))}
+            io = [D["names"].index(n) for n in ons["names"]]
+            ig = [D["names"].index(n) for n in G["names"]]
+            return norm(obs["rows"]) != norm([[a[i] for i in ig] for a in full if tuple(a[i] for i in io) in R])
         if kind == "records":
             e = payload["element"]
             rq = records_via_query(butler, universe, conv, objs).get(e, {})
